@@ -1,5 +1,6 @@
 import Ecal.Drivers.Util
 import Ecal.Model.Bridge
+import Ecal.Model.Reentry
 /-!
 Driver of C19. Payload (space separated):
 
@@ -234,5 +235,62 @@ def runCase (payload : String) : String :=
     | _, _ => "bad-payload"
   | _ => "bad-payload"
 
-def run (_args : List String) : IO Unit := lineLoop runCase
+/-! ## mode R: one program, evaluated repeatedly / concurrently, whose bridged call sites are re-entered
+
+  `reent R <goroutines> <rounds> <main> <fn>…`, expressions in postfix notation, tokens joined by `,`:
+  `c.<int>` constant, `v.<name>` variable, `+`, `-`, `B.<name>.<argc>` bridged call, `U.<name>.<argc>`
+  user call; `<fn>` = `<name>;<param>/<param>…;<base>;<step>` (body: `if p₀ == 0 { return base } return step`).
+  Result: `V <value> recv=[<vector>|<vector>…]` — the argument vectors the Go functions received, for
+  one goroutine in call order (repeated per round), for several as a sorted multiset. -/
+open Ecal.Reentry in
+def parseRpn (s : String) : Option Expr :=
+  let step (st : Option (List Expr)) (tok : String) : Option (List Expr) := do
+    let st ← st
+    match tok.splitOn "." with
+    | ["c", n] => do let n ← n.toInt?; pure (.num n :: st)
+    | ["v", x] => pure (.var x :: st)
+    | ["+"] => match st with | b :: a :: r => pure (.add a b :: r) | _ => none
+    | ["-"] => match st with | b :: a :: r => pure (.sub a b :: r) | _ => none
+    | [k, f, n] => do
+      let n ← n.toNat?
+      if st.length < n then none else
+      let args := ((st.take n).reverse).foldr (fun e acc => Args.cons e acc) Args.nil
+      if k = "B" then pure (.callB f args :: st.drop n)
+      else if k = "U" then pure (.callU f args :: st.drop n) else none
+    | _ => none
+  match (s.splitOn ",").foldl step (some []) with
+  | some [e] => some e
+  | _ => none
+
+open Ecal.Reentry in
+def parseFn (s : String) : Option FnDef :=
+  match s.splitOn ";" with
+  | [name, ps, b, st] => do
+    let b ← parseRpn b
+    let st ← parseRpn st
+    pure { name := name, params := ps.splitOn "/", base := b, step := st }
+  | _ => none
+
+open Ecal.Reentry in
+def runReentry (fields : List String) : String :=
+  match fields with
+  | g :: rounds :: mainS :: fnS =>
+    match g.toNat?, rounds.toNat?, parseRpn mainS, fnS.mapM parseFn with
+    | some g, some rounds, some main, some fns =>
+      match eval fns 400 [] main [] with
+      | none => "MODEL-ERROR"
+      | some (v, log) =>
+        let vecs := log.map fun l => ";".intercalate (l.map showVal)
+        let all := (List.replicate (g * rounds) vecs).flatten
+        let all := if g ≤ 1 then all else (all.toArray.qsort (· < ·)).toList
+        "V " ++ showVal (.f64 (Num.ofInt v)) ++ " recv=[" ++ "|".intercalate all ++ "]\tnt=1"
+    | _, _, _, _ => "bad-payload"
+  | _ => "bad-payload"
+
+def runCaseAll (payload : String) : String :=
+  match payload.splitOn " " with
+  | _ :: "R" :: rest => runReentry rest
+  | _ => runCase payload
+
+def run (_args : List String) : IO Unit := lineLoop runCaseAll
 end Ecal.Drv.C19
